@@ -259,7 +259,7 @@ class CrossModule(object):
         return check_set(mods, ['B-MIB'], 'C04|cross|%s|%s' % (case['use'], case['style']))
 
 
-ADVERSARIAL = ['global', 'class', 'None', 'True', 'import', 'tuple', 'type', 'object', 'mibBuilder', 'sys',
+ADVERSARIAL = ['global', 'class', 'None', 'True', 'import', 'tuple', 'type', 'object', 'mibBuilder', 'sys', 'self', 'modName',
                'Integer32', 'OctetString', 'MibScalar', 'NamedValues']
 
 
